@@ -163,7 +163,160 @@ pub fn geo_strategy() -> impl Strategy<Value = GeoCase> {
         .prop_map(|(layout, sp)| GeoCase { layout, sp })
 }
 
+/// Live judge: geometry and bytes of every captured stack.
+pub fn judge_live(c: &crate::props::fid::FCase) -> Verdict {
+    use crate::props::fid::*;
+    use crate::vcore::target::*;
+    let o = match run_case(c) {
+        Ok(o) => o,
+        Err(e) => return run_err_verdict(e),
+    };
+    macro_rules! bad {
+        ($sig:expr, $($arg:tt)*) => { return Verdict::viol(format!("C06:{}", $sig), format!($($arg)*)) };
+    }
+    let Some(threads) = o.d.threads.as_ref() else { bad!("no-thread-list", "thread list missing") };
+    let Some(tl) = o.d.stream(crate::vcore::md::ST_THREAD_LIST) else { bad!("no-thread-list", "thread list missing") };
+    let n = threads.len() as u64;
+    let triggered = match o.limit {
+        Some(l) => (tl.loc.rva as u64 + tl.loc.size as u64) + 8192 * n + 65536 > l,
+        None => false,
+    };
+    let regions: Vec<Region> = o.maps_before.iter().map(|m| Region { start: m.start, end: m.end, perms: m.perms & 7 }).collect();
+    let mut classes = vec![];
+    let mut shortened_seen = 0;
+    for (idx, t) in threads.iter().enumerate() {
+        let tid = t.tid as i32;
+        let is_crash_thread = o.crash.is_some() && tid == o.blamed;
+        let kind = o.kind_of(tid);
+        let sp = if is_crash_thread {
+            o.crash.as_ref().unwrap().gregs[crate::vcore::regs::REG_RSP] as u64
+        } else if let Some(sp) = o.planned_sp.get(&tid) {
+            *sp
+        } else {
+            // main / sleeper / exiter: take the stack pointer the dump recorded for the thread
+            match o.ctx_of(t.ctx) {
+                Some(ctx) => ctx.gpr[4],
+                None => continue,
+            }
+        };
+        let (start, len) = (t.stack_start, t.stack.size as u64);
+        let may_shorten = triggered && idx >= 20 && !is_crash_thread;
+        let want = reference(&regions, sp);
+        match want {
+            Expect::DontCare(_) => continue,
+            Expect::Empty => {
+                if len != 0 {
+                    bad!("region-for-unmapped-sp", "thread {tid}: sp {sp:#x} has no plausible stack within the guard distance but a region ({start:#x},+{len:#x}) was captured");
+                }
+                classes.push("sp-unmapped-empty".to_string());
+                continue;
+            }
+            Expect::Exact(s, l) => {
+                if len == 0 {
+                    bad!("missing-stack", "thread {tid}: sp {sp:#x} lies in/below readable memory [{s:#x},+{l:#x}) but no stack was captured");
+                }
+                let sp_inside = sp >= s;
+                if !may_shorten || l <= 2048 {
+                    if start != s || len != l {
+                        let sig = if may_shorten { "geometry" } else if len < l { "shortened-wrongly" } else { "geometry" };
+                        bad!(sig, "thread {tid} (list position {idx}, limit triggered {triggered}, crash thread {is_crash_thread}): region ({start:#x},+{len:#x}) expected ({s:#x},+{l:#x}), sp {sp:#x}");
+                    }
+                } else if (start, len) != (s, l) {
+                    // shortened
+                    shortened_seen += 1;
+                    if len > 2048 {
+                        bad!("shortened-too-long", "thread {tid}: shortened region has {len} bytes");
+                    }
+                    if sp_inside {
+                        if !(start <= sp && sp < start + len) {
+                            bad!("shortened-misses-sp", "thread {tid} (position {idx}): shortened region [{start:#x},+{len:#x}) does not contain the stack pointer {sp:#x} (in-page offset {})", sp % 4096);
+                        }
+                        if start < s {
+                            bad!("geometry", "thread {tid}: shortened region starts below the page of the stack pointer");
+                        }
+                    } else if start != s {
+                        bad!("geometry", "thread {tid}: sp below the stack mapping, shortened region must begin at the mapping start {s:#x}, got {start:#x}");
+                    }
+                    if start + len > s + l {
+                        bad!("geometry", "thread {tid}: shortened region runs past the mapping end");
+                    }
+                }
+                if sp_inside && !(start <= sp && sp < start + len) {
+                    bad!("region-misses-sp", "thread {tid}: region [{start:#x},+{len:#x}) does not contain sp {sp:#x}");
+                }
+                // bytes from the stack pointer upward (volatile threads are skipped)
+                // glibc thread stacks hold the TCB whose rseq area the kernel rewrites on every
+                // resume (cpu id), and sleepers run: only custom stacks and the main stack are stable
+                if kind == Some(K_SLEEPER) || kind == Some(K_EXITER) || kind == Some(K_NULLSP) {
+                    continue;
+                }
+                let from = sp.max(start);
+                let upto = start + len;
+                if from < upto {
+                    let Some(mem) = o.target.read_mem(from, (upto - from) as usize) else { continue };
+                    let got = &o.bytes(t.stack)[(from - start) as usize..];
+                    // every spinner keeps rewriting its own slot [sp+8, sp+16)
+                    let slots: Vec<u64> = o.case_threads.iter().filter(|(_, _, k)| *k == K_SPINNER).filter_map(|(_, t, _)| o.planned_sp.get(t).copied()).collect();
+                    let diff = (0..mem.len()).find(|i| {
+                        let a = from + *i as u64;
+                        mem[*i] != got[*i] && !slots.iter().any(|s| a >= s + 8 && a < s + 16)
+                    });
+                    if let Some(i) = diff {
+                        bad!("bytes-differ", "thread {tid} (kind {kind:?}, sp {sp:#x}, region {start:#x}+{len:#x}): captured stack byte at {:#x} is {:#x}, target memory holds {:#x}", from + i as u64, got[i], mem[i]);
+                    }
+                    crate::fw::count("stack-bytes-compared", mem.len() as u64);
+                }
+                if sp % 4096 >= 2048 {
+                    classes.push("inpage>=2048".to_string());
+                }
+                if !sp_inside {
+                    classes.push("sp-in-guard-or-hole".to_string());
+                }
+            }
+        }
+    }
+    if triggered {
+        classes.push("limit-triggered".into());
+    }
+    if shortened_seen > 0 {
+        classes.push("shortened-stacks".into());
+        crate::fw::count("shortened-stacks", shortened_seen);
+    }
+    classes.sort();
+    classes.dedup();
+    let nt = (triggered && threads.len() >= 21) || classes.iter().any(|c| c == "sp-in-guard-or-hole" || c == "inpage>=2048" || c == "sp-unmapped-empty");
+    Verdict::pass_c(if nt { Some(fp_json(c)) } else { None }, classes)
+}
+
 pub fn run(ctx: &mut LaneCtx) {
+    ctx.assume("live part: 'containing mapping' = the /proc/pid/maps line (custom stacks are anonymous mappings separated by holes/guard pages so kernel, writer and checker agree); the size-limit trigger is recomputed from the image (end of the thread list + 8192*n + 65536 > limit); bytes are compared for threads on custom stacks and the main thread; glibc thread stacks (sleepers, exiters) contain the TCB whose rseq area the kernel rewrites on resume and are not byte-compared");
+    ctx.run_sub(
+        SubSpec {
+            name: "live-stacks",
+            cases: (240, 20_000),
+            rule: "generated targets with 1..24 parked/spinner/sleeper threads on custom stacks (1..64 pages, with/without guard page), sp at any in-page offset / in the guard page / in a hole below; crash context on the blamed thread; oracle = reference geometry over /proc/pid/maps + bytes from sp upward equal /proc/pid/mem; non-trivial = sp in guard/hole, in-page offset >= 2048, or limit triggered with >= 21 threads; distinct = hash of case",
+            strategy: crate::props::fid::case_strategy(24, 1).boxed(),
+            max_shrink_iters: 150,
+            log_current: true,
+        },
+        judge_live,
+    );
+    ctx.run_sub(
+        SubSpec {
+            name: "live-stacks-limit",
+            cases: (96, 8_000),
+            rule: "as live-stacks but 22..48 threads and a size limit around the estimate threshold (+-3) or tiny, so that threads at list position >= 20 are shortened; oracle additionally: only positions >= 20 and never the crash-context thread are shortened, to <= 2048 bytes containing sp",
+            strategy: (crate::props::fid::case_strategy(48, 22), prop_oneof![(-3i32..4).prop_map(crate::props::fid::LimitG::Around), Just(crate::props::fid::LimitG::Tiny)])
+                .prop_map(|(mut c, l)| {
+                    c.limit = l;
+                    c
+                })
+                .boxed(),
+            max_shrink_iters: 100,
+            log_current: true,
+        },
+        judge_live,
+    );
     ctx.assume("guard distance = 1 MiB above the page of the stack pointer; a plausible stack mapping is one that is readable or writable; write-only / execute-only mappings and the one-page band just beyond the guard distance are don't-care");
     ctx.run_sub(
         SubSpec {
@@ -181,6 +334,7 @@ pub fn run(ctx: &mut LaneCtx) {
 pub fn replay(sub: &str, case: &Value) -> Verdict {
     match sub {
         "pure-geometry" => replay_case::<GeoCase>(case, check_geo),
+        "live-stacks" | "live-stacks-limit" => replay_case::<crate::props::fid::FCase>(case, judge_live),
         _ => Verdict::Inconclusive(format!("unknown sub {sub}")),
     }
 }
